@@ -19,6 +19,21 @@ func (h *Hex) UnmarshalJSON(b []byte) error {
 	return err
 }
 
+// HexStr is a string of arbitrary bytes (file names from the wire) that travels as hex text, so that a replay
+// file reproduces it exactly (plain JSON strings replace invalid UTF-8).
+type HexStr string
+
+func (h HexStr) MarshalJSON() ([]byte, error) { return json.Marshal(hex.EncodeToString([]byte(h))) }
+func (h *HexStr) UnmarshalJSON(b []byte) error {
+	var s string
+	if err := json.Unmarshal(b, &s); err != nil {
+		return err
+	}
+	d, err := hex.DecodeString(s)
+	*h = HexStr(d)
+	return err
+}
+
 // Plan is everything that defines one simulated run apart from the schedule: explicit data generated
 // before the bubble starts. Together with Picks/Perms it is a replay file's payload.
 type Plan struct {
@@ -145,7 +160,7 @@ type SentFrame struct {
 	File  int    `json:"file,omitempty"`  // file index+1 this unit belongs to (0x1211, 0x1212, chunks)
 	Off   int    `json:"off,omitempty"`   // chunk: offset
 	Chunk bool   `json:"chunk,omitempty"` // a raw file-data unit (not a JT808 frame)
-	Name  string `json:"name,omitempty"`
+	Name  HexStr `json:"name,omitempty"`
 }
 
 // Transfer is one sub-packaged message.
@@ -165,7 +180,7 @@ type Upload struct {
 }
 
 type UpFile struct {
-	Name string `json:"name"`
+	Name HexStr `json:"name"`
 	Data Hex    `json:"data"`
 	Type byte   `json:"type"`
 }
